@@ -25,6 +25,15 @@
 (*   olvmValidateThroughCache a seeded change (C07-f4): the OLVM validation  *)
 (*                            reads sender data through the EVM state's     *)
 (*                            object cache, which outlives the CheckTx      *)
+(*   validatorListCachedByVersion  a seeded change (C07-k3): the validator   *)
+(*                            store keeps the decoded validator list, keyed *)
+(*                            by the chain-state version - which the check  *)
+(*                            state and the deliver state share; dropped on *)
+(*                            validator-record writes                       *)
+(*   stakeMapOutsideSession   a seeded change (C06-k2): the validator store *)
+(*                            notes in a map, reset at BeginBlock, whose    *)
+(*                            stake changed in the block; the shared object *)
+(*                            is also written by CheckTx, block end reads it*)
 (* Every counterexample of a deviation is a schedule the C07 check replays  *)
 (* on the real application (families gov and govfee).                       *)
 (***************************************************************************)
@@ -35,21 +44,26 @@ Fam == {"govern", "validators", "evidence", "balances", "deleg", "rewards", "pro
 (* objects a store pointer can designate: current / previous deliver state, current / previous check state, construction *)
 Obj == {"dc", "do", "cc", "co", "boot"}
 (* what a CheckTx may write in the check state, by kind of request *)
-CheckKinds == {"rejected", "transfer", "vote", "finalise", "olvm"}
+CheckKinds == {"rejected", "transfer", "vote", "finalise", "olvm", "stake", "fund"}
 W(k) == CASE k = "rejected" -> {}
           [] k = "transfer" -> {"balances", "fee"}
           [] k = "vote" -> {"proposals", "balances", "fee"}
           [] k = "finalise" -> {"govern", "proposals", "balances", "fee"}
           [] k = "olvm" -> {}                            \* the OLVM mempool check executes nothing
+          [] k = "stake" -> {"validators", "deleg", "balances", "fee"}
+          [] k = "fund" -> {"proposals", "balances", "fee"}   \* reads the validator list when the goal is met (vote snapshot)
+DeliverKinds == {"plain", "olvm", "stake", "fund"}
 
-VARIABLES phase, blocks, checks, ntx, ptr, ctaint, memOpt, evmCache, viol
-vars == <<phase, blocks, checks, ntx, ptr, ctaint, memOpt, evmCache, viol>>
+VARIABLES phase, blocks, checks, ntx, ptr, ctaint, memOpt, evmCache, valCache, stakeMap, viol
+vars == <<phase, blocks, checks, ntx, ptr, ctaint, memOpt, evmCache, valCache, stakeMap, viol>>
 
 Init == /\ phase = "idle" /\ blocks = 0 /\ checks = 0 /\ ntx = 0
         /\ ptr = [f \in Fam |-> "boot"]
         /\ ctaint = [o \in {"cc", "co"} |-> {}]      \* families with check-only writes in that check state
         /\ memOpt = FALSE                             \* the in-memory option copy was set from check-only data
         /\ evmCache = FALSE                           \* the EVM state's object cache holds an object loaded through a check state
+        /\ valCache = "none"                         \* the validator store's list cache: none / filled from clean data / filled from check-only data
+        /\ stakeMap = FALSE                          \* the per-block map of stake changes holds an entry written by a CheckTx
         /\ viol = {}
 
 Tainted(p, f) == p[f] \in {"cc", "co"} /\ f \in ctaint[p[f]]
@@ -62,6 +76,12 @@ CheckTx(k) ==
   /\ ctaint' = [ctaint EXCEPT !["cc"] = @ \cup W(k)]
   /\ memOpt' = (memOpt \/ (k = "finalise" /\ "checkUpdatesMemory" \in Deviations))
   /\ evmCache' = (evmCache \/ (k = "olvm" /\ "olvmValidateThroughCache" \in Deviations))
+  /\ valCache' = IF "validatorListCachedByVersion" \notin Deviations THEN "none"
+                 ELSE IF k = "stake" THEN "none"                                      \* a validator-record write drops the cache
+                 ELSE IF k = "fund" /\ valCache = "none"
+                      THEN (IF "validators" \in ctaint["cc"] THEN "tainted" ELSE "clean")   \* filled through the check state
+                 ELSE valCache
+  /\ stakeMap' = (stakeMap \/ (k = "stake" /\ "stakeMapOutsideSession" \in Deviations))
   /\ UNCHANGED <<phase, blocks, ntx, viol>>
 
 BeginBlock ==
@@ -78,32 +98,41 @@ BeginBlock ==
      IN /\ ptr' = p6
         /\ memOpt' = (rFee # {})                                             \* feePool.SetupOpt(what was just read)
         /\ viol' = viol \cup rFee \cup rProp
-  /\ UNCHANGED <<blocks, checks, ctaint, evmCache>>
+  /\ stakeMap' = FALSE                                                       \* Setup resets the map
+  /\ UNCHANGED <<blocks, checks, ctaint, evmCache, valCache>>
 
-DeliverTx(olvm) ==
+DeliverTx(kd) ==
+  LET olvm == kd = "olvm" IN
   /\ phase = "open" /\ ntx < MaxTx /\ ntx' = ntx + 1
   /\ ptr' = Reaim(ptr, Fam, "dc")                     \* Action(header, deliver)
   /\ viol' = viol \cup (IF memOpt THEN {<<"DeliverTx.ValidateFee", "memOpt">>} ELSE {})
                    \cup (IF olvm /\ evmCache THEN {<<"DeliverTx.OLVM", "evmCache">>} ELSE {})
+                   \cup (IF kd = "fund" /\ valCache = "tainted" THEN {<<"DeliverTx.fund.snapshot", "valCache">>} ELSE {})
   /\ evmCache' = IF olvm THEN FALSE ELSE evmCache       \* an EVM execution ends with Finalise, which empties the cache
-  /\ UNCHANGED <<phase, blocks, checks, ctaint, memOpt>>
+  /\ valCache' = IF "validatorListCachedByVersion" \notin Deviations THEN "none"
+                 ELSE IF kd = "stake" THEN "none"
+                 ELSE IF kd = "fund" /\ valCache = "none" THEN "clean"
+                 ELSE valCache
+  /\ UNCHANGED <<phase, blocks, checks, ctaint, memOpt, stakeMap>>
 
 EndBlock ==
   /\ phase = "open" /\ phase' = "ended"
   /\ LET p1 == Reaim(ptr, {"fee", "balances", "validators", "evidence", "govern", "deleg"}, "dc")   \* ValidatorCtx()
          rMem == IF memOpt THEN {<<"EndBlock.distribute", "memOpt">>} ELSE {}
          p2 == Reaim(p1, Fam, "dc")                                          \* Expire / Finalize: Action(header, deliver)
-     IN /\ ptr' = p2 /\ viol' = viol \cup rMem
+         rMap == IF stakeMap THEN {<<"EndBlock.deleteRecords", "stakeMap">>} ELSE {}
+     IN /\ ptr' = p2 /\ viol' = viol \cup rMem \cup rMap
   /\ evmCache' = FALSE                                \* stateDB.Reset()
-  /\ UNCHANGED <<blocks, checks, ntx, ctaint, memOpt>>
+  /\ UNCHANGED <<blocks, checks, ntx, ctaint, memOpt, valCache, stakeMap>>
 
 Commit ==
   /\ phase = "ended" /\ phase' = "idle" /\ blocks' = blocks + 1
   /\ ptr' = [f \in Fam |-> IF ptr[f] = "cc" THEN "co" ELSE ptr[f]]       \* check := new state; stores keep pointing at the old one
   /\ ctaint' = [cc |-> {}, co |-> ctaint["cc"]]
-  /\ UNCHANGED <<checks, ntx, memOpt, evmCache, viol>>
+  /\ valCache' = "none"                              \* a new chain-state version: the cache key changes
+  /\ UNCHANGED <<checks, ntx, memOpt, evmCache, stakeMap, viol>>
 
-Next == BeginBlock \/ (\E o \in BOOLEAN : DeliverTx(o)) \/ EndBlock \/ Commit \/ \E k \in CheckKinds : CheckTx(k)
+Next == BeginBlock \/ (\E kd \in DeliverKinds : DeliverTx(kd)) \/ EndBlock \/ Commit \/ \E k \in CheckKinds : CheckTx(k)
 Spec == Init /\ [][Next]_vars
 
 NoTaintInConsensus == viol = {}
